@@ -76,6 +76,13 @@ pub(crate) fn normalize_for_matching(path: &Path) -> PathBuf {
     }
 }
 
+/// Verification hook: the crate-private matching normalisation.
+#[cfg(feature = "verif")]
+#[must_use]
+pub fn verif_normalize_for_matching(path: &Path) -> PathBuf {
+    normalize_for_matching(path)
+}
+
 #[cfg(test)]
 mod tests {
     use super::*;
